@@ -71,6 +71,8 @@ pub open spec fn ast_of<'a>(g: G<'a>) -> ExprAST<'a> decreases g {
     }
 }
 pub open spec fn is_prim(g: G) -> bool { !(g is Bin) && !(g is Cond) && !(g is Entry) }
+// an atom: a primary that is neither a prefix nor a postfix expression (literal, name, call, list, map, parenthesised expression)
+pub open spec fn is_atom(g: G) -> bool { is_prim(g) && !(g is Pre) && !(g is Post) }
 // the tokenizer, scanning from the end of `t`, produces `t2`
 pub open spec fn nxt(b: Seq<u8>, t: Token, t2: Token) -> bool {
     !(t is EOF) && tok_post(b, tok_end(t, b.len() as int), t2, tok_end(t2, b.len() as int))
@@ -89,7 +91,7 @@ pub open spec fn wf(g: G, b: Seq<u8>, follow: Token) -> bool decreases g {
         G::Ref(t) => t is Reference && nxt(b, t, follow),
         G::Paren(to, g, tc) => tok_is(to, "("@) && nxt(b, to, first(*g)) && wf(*g, b, tc) && tok_is(tc, ")"@) && nxt(b, tc, follow),
         G::Pre(t, g) => t is Operator && keyword::reg_prefix(op_text(t)) && nxt(b, t, first(*g)) && is_prim(*g) && wf(*g, b, follow),
-        G::Post(g, t, s) => is_prim(*g) && wf(*g, b, t) && t is Operator && keyword::reg_postfix(op_text(t)) && s@ == op_text(t) && nxt(b, t, follow),
+        G::Post(g, t, s) => is_atom(*g) && wf(*g, b, t) && t is Operator && keyword::reg_postfix(op_text(t)) && s@ == op_text(t) && nxt(b, t, follow),
         G::List(to, items, tc, v) => {
             &&& tok_is(to, "["@)
             &&& nxt(b, to, if items.len() == 0 { tc } else { first(items[0].0) })
@@ -256,6 +258,9 @@ pub proof fn lemma_cond_step<'a>(g: G<'a>, tq: Token<'a>, ga: G<'a>, tc: Token<'
 }
 impl<'a> Parser<'a> {
     pub closed spec fn bytes(&self) -> Seq<u8> { self.tokenizer.bytes() }
+    pub open spec fn d_atom(&self, old: &Parser<'a>, r: ExprAST<'a>) -> bool {
+        exists|g: G<'a>| is_atom(g) && first(g) == old.cur() && #[trigger] wf(g, self.bytes(), self.cur()) && ast_of(g) == r
+    }
     pub open spec fn d_prim(&self, old: &Parser<'a>, r: ExprAST<'a>) -> bool {
         exists|g: G<'a>| is_prim(g) && first(g) == old.cur() && #[trigger] wf(g, self.bytes(), self.cur()) && ast_of(g) == r
     }
